@@ -30,6 +30,7 @@ RULE = (
 )
 RULE += (" " + "(4c) the {regex} slot that every string template offers (field-bound, case-sensitive and unbound templates): strings up to length 3/4 over (backslash, '*', '?', a letter, the regex-literal delimiter), delimiter in {double quote, slash}, protected either by add_escaped_re or by re_escape; the literal is decoded by the target's rules, must end exactly at the closing delimiter and must match exactly the subjects (all strings up to length 3) the glob pattern matches.")
 RULE += (" Long strings: every interesting unit inside / before / after plain runs of 31..1025 characters for every configuration; random strings include runs of 40 and 70 plain characters.")
+RULE += (" Every string up to length 3 is additionally rendered as member of a two-element value list on an OR-as-in backend (with and without wildcards allowed in lists) and the list member is decoded like the single literal.")
 ASSUMPTIONS = [
     "vf/ref/strings.py is the Sigma string syntax; glob semantics '*' any run, '?' one character",
     "python's re module defines regular-expression matching; subjects contain no newline",
@@ -170,6 +171,52 @@ def check_case(case: dict) -> Outcome:
             out.fail("C05:render:literal-terminated-early", f"cfg={cfg}: {s!r} rendered {text!r}: literal ends at {end} of {len(text)}")
         elif got != want:
             out.fail("C05:render:tokens", f"cfg={cfg}: {s!r} rendered {text!r} decodes to {got}, expected {want}")
+        return out
+    if kind == "render_list":
+        # the same literal inside an in-expression (value list of one field, OR-as-in backend)
+        from sigma.collection import SigmaCollection
+        cfg = tuple(case["cfg"])
+        quote, esc, wm, ws, add_esc, filt = cfg
+        s, other, first, allow_wild = case["s"], case["other"], case["first"], case["allow_wild"]
+        toks = rs.parse(s)
+        has_wild = "*" in toks or "?" in toks
+        out.nontrivial = _interesting(s)
+        out.label("in-list", "wildcards-allowed" if allow_wild else "no-wildcards-in-lists")
+        if has_wild and (not allow_wild or wm is None or ws is None):
+            out.skipped = "value list with wildcards is not rendered as in-expression"
+            return out
+        if not toks or not quote:
+            out.skipped = "empty string / unquoted literals have no end inside a list"
+            return out
+        want = tuple(t for t in toks if not (isinstance(t, tuple) and t[1] in filt))
+        backend = _backend(cfg)
+        backend.convert_or_as_in = True
+        backend.in_expressions_allow_wildcards = allow_wild
+        values = [s, other] if first else [other, s]
+        try:
+            rule = SigmaCollection.from_dicts([{"title": "t", "logsource": {"category": "c"}, "detection": {"sel": {"f": values}, "condition": "sel"}}])
+            text = backend.convert(rule)[0]
+        except SigmaError as e:
+            out.fail("C05:render-list:rejected", f"cfg={cfg}: list {values!r} rejected: {e}")
+            return out
+        if not text.startswith("f in ("):
+            out.skipped = "not rendered as in-expression"
+            return out
+        try:
+            pos = len("f in (")
+            lits = []
+            for _ in range(2):
+                got, end = decode_literal(text, pos, cfg)
+                lits.append(got)
+                if not text.startswith(", " if len(lits) == 1 else ")", end):
+                    raise DecodeError("literal %d ends at %d, no list separator follows" % (len(lits), end))
+                pos = end + 2
+        except DecodeError as e:
+            out.fail("C05:render-list:undecodable", f"cfg={cfg}: list {values!r} rendered {text!r}: {e}")
+            return out
+        got = lits[0] if first else lits[1]
+        if got != want:
+            out.fail("C05:render-list:tokens", f"cfg={cfg}: {s!r} in list {values!r} rendered {text!r} decodes to {got}, expected {want}")
         return out
     if kind == "regex":
         s = case["s"]
@@ -441,6 +488,9 @@ def run(ctx) -> None:
                 if i % ctx.nshards != ctx.shard:
                     continue
                 ctx.do({"kind": "render", "cfg": list(cfg), "s": s})
+                if cfg[0] and 1 <= n <= 3:   # the same literal as member of an in-expression
+                    ctx.do({"kind": "render_list", "cfg": list(cfg), "s": s, "other": "zz", "first": n % 2 == 1, "allow_wild": len(s) % 2 == 0 or "*" in s or "?" in s})
+                    ctx.do({"kind": "render_list", "cfg": list(cfg), "s": s, "other": "z\\*", "first": n % 2 == 0, "allow_wild": False})
                 if s not in seen_parse:
                     seen_parse.add(s)
                     ctx.do({"kind": "parse", "s": s})
